@@ -242,6 +242,10 @@ func (c cast) ent(i int) *keyEntry {
 	return key(c[i%len(c)])
 }
 
+// polBase resolves a delegation label to the policy slice of the live token object of that label
+// (set by the world executor for the duration of a run; nil elsewhere).
+var polBase func(label string) (policy.Policy, bool)
+
 func buildDelegation(c cast, s DlgSpec) (*delegation.Token, error) {
 	cmd, err := command.Parse(s.Cmd)
 	if err != nil {
@@ -250,6 +254,16 @@ func buildDelegation(c cast, s DlgSpec) (*delegation.Token, error) {
 	pol, err := buildPolicy(s.Pol)
 	if err != nil {
 		return nil, fmt.Errorf("policy: %w", err)
+	}
+	if s.PolFrom != "" && polBase != nil {
+		// the attenuation idiom on a live token: append(parent.Policy(), own...), which shares the
+		// parent's backing array whenever that has room
+		if base, ok := polBase(s.PolFrom); ok && len(base) <= len(s.Pol) {
+			own, oerr := buildPolicy(s.Pol[len(base):])
+			if oerr == nil {
+				pol = append(base, own...)
+			}
+		}
 	}
 	if s.PolSpare {
 		// a policy slice with spare capacity, as a caller gets from a pre-sized slice or
